@@ -8,3 +8,32 @@ K('C06.e', engine='symex', harness='C06/sort.cpp', entry='k_sort', tus=['src/Tre
   what='simultaneous_sort/dual_swap (neighbors_heap.cpp): output ascending, (dist,idx) pairs stay a permutation; full recursion executed',
   out='NaN distances; sizes above the bound',
   assumptions=['distances are finite reals (comparison-only code: the real reading is exact for finite doubles)'])
+
+# ---- C06.d nheap_push, inductive step from an arbitrary max-heap row
+for _k in (1, 2, 3, 4, 5):
+    K('C06.d.%d' % _k, property='C06', engine='symex', harness='C06/heap.cpp', entry='k_heap_push',
+      tus=['src/Tree/neighbors_heap.cpp'], defines={'all': {'VF_K': _k}},
+      bounds={'quick': 'heap row of exactly %d (distance, index) pairs: arbitrary finite distances satisfying the max-heap invariant, arbitrary int indices; arbitrary pushed pair' % _k},
+      timeout_ms={'quick': 60000, 'thorough': 300000}, validate={'quick': 30, 'thorough': 60},
+      what='nheap_push (neighbors_heap.cpp): max-heap invariant preserved; pair multiset = old minus root plus new when new < max, unchanged when new > max',
+      out='INFINITY entries of a freshly initialised heap (comparison-only code: +inf behaves as a largest value); NaN; ties new == max checked on distances only',
+      assumptions=['distances are finite reals (comparison-only code: the real reading is exact for finite doubles)',
+                   'pre-state: any row with d[(i-1)/2] >= d[i] (the representation invariant of the heap)'],
+      stubs=[])
+
+# ---- C06.a / C06.b sector quota and nmaxi selection over the distance-sorted candidate list
+_SEL_STUBS = ['NeighMoving object is raw storage (no constructor): _nSect, _nSMax, _nMaxi, _movingInd, _movingDst, _movingIsect, _movingNsect initialised by the harness exactly as attach()/_moving() size and fill them']
+for _ns, _nsel, _tiers in ((1, 5, ('quick', 'thorough')), (2, 5, ('quick', 'thorough')), (3, 5, ('quick', 'thorough')),
+                           (4, 7, ('thorough',))):
+    for _kid, _entry, _what in (
+            ('C06.a', 'k_sector_nsmax', 'NeighMoving::_movingSectorNsmax: in every sector exactly the min(count, nsmax) closest candidates keep their sector, the others become -1'),
+            ('C06.b', 'k_select', 'NeighMoving::_movingSelect: kept set == cycling over the sectors taking the next-closest of each non-exhausted sector; total kept == min(nmaxi, available); single sector: the nmaxi closest')):
+        K('%s.%d' % (_kid, _ns), property='C06', engine='symex', harness='C06/select.cpp', entry=_entry,
+          tus=['src/Neigh/NeighMoving.cpp'], defines={'all': {'VF_NSECT': _ns, 'VF_NSEL': _nsel}}, tiers=_tiers,
+          bounds={'quick': 'exactly %d candidates among %d samples (arbitrary injective candidate->sample map), strictly increasing arbitrary distances, %d sector(s) with arbitrary sector of each candidate, arbitrary positive nsmax / nmaxi, arbitrary stale work arrays' % (_nsel, _nsel + 1, _ns)},
+          timeout_ms={'quick': 120000, 'thorough': 900000}, validate={'quick': 30, 'thorough': 60},
+          what=_what, out='ties between distances; nsmax <= 0 / nmaxi <= 0 (selection step skipped by the caller / by the function)',
+          assumptions=['candidates are listed by strictly increasing distance (what VH::arrangeInPlace establishes; ties excluded by the property)',
+                       'candidate sectors lie in [0, nsect) (C06.g), -1 marks a discarded candidate',
+                       'nsmax > 0 (the caller _moving tests getNSMax() > 0), nmaxi > 0'],
+          stubs=_SEL_STUBS)
